@@ -67,7 +67,9 @@ CLAIMED = {
              "noiseless_polynomial_extrapolation_returns_the_exact_value (PolyFit.v): with the same value E at every scale factor, order + 1 "
              "distinct scale factors (the guard of polynomial_fitting) and numpy's fit taken by its contract (<= order + 1 coefficients, least-"
              "squares minimiser; validated against polynomial_fitting by corr_C12_fit.py), the fitted polynomial is the constant E and "
-             "parameters[0] = E, for any number / order / repetition of scale factors and any polynomial order.",
+             "parameters[0] = E, for any number / order / repetition of scale factors and any polynomial order; "
+             "noiseless_exponential_extrapolation_returns_the_exact_value: an exponential fit a + b exp(p(x)) that reproduces the noiseless data "
+             "exactly (hypothesis, checked on the real curve_fit results) is the constant E everywhere.",
         design_ref="DESIGN.md section 4 (C12)",
         note="Trusted: Coq kernel+vm_compute; Reals axioms + funext; translate/inverse.py; documented matrices. "
              "PauliRotation and UnitaryMatrix gates have pauli_rotation_inverse_undoes / unitary_matrix_inverse_undoes over the "
